@@ -47,6 +47,9 @@ func (ex *Exec) step(fr *frame, st *State, ins ssa.Instruction) []*State {
 			return nil
 		}
 		st.H.Store(p, ex.get(fr, st, x.Val))
+		if g, ok := x.Addr.(*ssa.Global); ok && ex.RecordGlobals {
+			ex.Events = append(ex.Events, Event{Kind: "write", Obj: "global:" + g.Name(), Site: ex.pos(x)})
+		}
 	case *ssa.UnOp:
 		return ex.unop(fr, st, x)
 	case *ssa.BinOp:
@@ -189,6 +192,9 @@ func (ex *Exec) unop(fr *frame, st *State, x *ssa.UnOp) []*State {
 			return nil
 		}
 		st.F.Env[x] = st.H.Load(p)
+		if g, ok := x.X.(*ssa.Global); ok && ex.RecordGlobals {
+			ex.Events = append(ex.Events, Event{Kind: "read", Obj: "global:" + g.Name(), Site: ex.pos(x)})
+		}
 	case token.NOT:
 		st.F.Env[x] = term.Not(v.(*term.Term))
 	case token.SUB:
